@@ -776,6 +776,8 @@ def c06(tier):
           'mixed with uncompressed and damaged messages' % K, spellings=['absent'], incoming=K, sends=0, max_frags=2, cut_options='few', sym_negotiate=False),
         S('both-directions', 'incoming messages interleaved with application sends at solver-chosen events (two contexts in use at once)',
           spellings=['absent'], incoming=2, sends=2, max_frags=1, sym_negotiate=False, sym_flags=False, flags=(False, False), bad=False),
+        S('both-directions-flags', 'the same with both no_context_takeover flags symbolic (asymmetric combinations included): a send must not disturb the '
+          'receive context and vice versa', spellings=['absent'], incoming=2, sends=1, max_frags=1, sym_negotiate=False, bad=False),
         S('not-negotiated', 'compress offered but the server does not negotiate: RSV1 must never be set, RSV1 from the server is a violation', spellings=['absent'],
           incoming=1, sends=2, send_in_ready=True, bad=False, sym_negotiate=False, negotiate=False, sym_flags=False, max_frags=1),
         Spec('renegotiation-plain', 'checks.reuse', 'run_reuse', dict(N1=1, N2=2, endings=['compressed-then-plain'], xval_stride=3),
